@@ -818,6 +818,87 @@ fn finish_c10_pair(r: &mut SplitMix64, machines: Vec<maybenot::Machine>, m: mayb
     (combined, solo, pos)
 }
 
+/// C10 for an ARBITRARY machine that cannot signal (probabilistic transitions, sampled timeouts, limits
+/// and counter values), directly on the implementation: the combined run notes which random words the
+/// framework drew while stepping machine `pos`; the machine then runs alone on the projected history with a
+/// random source that replays exactly those words; its actions must be identical (theorem C10_solo_any).
+/// Returns (violation, whether the machine drew any random word, whether it returned an action).
+pub fn c10_prob_direct(r: &mut SplitMix64) -> (Option<String>, bool, bool) {
+    use crate::rng::{ReplayRng, ScriptRng, TagRng, TagState};
+    use std::cell::RefCell;
+    use std::rc::Rc;
+    let mut mp = MProfile::mixed();
+    mp.signals = 0;
+    mp.counters = 40;
+    mp.limits = 50;
+    mp.trans_density = 55;
+    mp.budgets = true;
+    if r.chance(1, 2) {
+        mp.dist = DistMode::Const;
+    }
+    let total = r.range(1, 4) as usize;
+    let pos = r.below(total as u64) as usize;
+    let machines: Vec<maybenot::Machine> = (0..total).map(|_| gen_machine(r, &mp)).collect();
+    let m = machines[pos].clone();
+    let mut hp = HProfile::mixed();
+    hp.max_calls = 10;
+    hp.max_events = 3;
+    let (t0, calls) = gen_history(r, total, &hp);
+    let (combined, solo, pos) = finish_c10_pair(r, machines, m, pos, t0, calls);
+    let seed = combined.seed;
+    // random words drawn by Framework::new for the machines before `pos` and up to `pos`
+    let init_words = |k: usize| -> usize {
+        let st = Rc::new(RefCell::new(TagState::default()));
+        let mut c = combined.clone();
+        c.machines.truncate(k);
+        c.calls.clear();
+        let _ = crate::fw::run_case_with_rng(&c, &crate::fw::VirtualClock, TagRng { inner: ScriptRng::new(vec![], seed), st: st.clone() });
+        let n = st.borrow().words.len();
+        n
+    };
+    let (lo, hi) = (init_words(pos), init_words(pos + 1));
+    let st = Rc::new(RefCell::new(TagState::default()));
+    let rc = crate::fw::run_case_with_rng(&combined, &crate::fw::VirtualClock, TagRng { inner: ScriptRng::new(vec![], seed), st: st.clone() });
+    let words = &st.borrow().words;
+    let ninit = words.iter().take_while(|(t, _)| t.is_none()).count();
+    if rc.panic.is_some() || rc.new_err.is_some() || hi < lo || hi > ninit {
+        return (None, false, false);
+    }
+    let mut mine: Vec<u64> = words[lo..hi].iter().map(|x| x.1).collect();
+    mine.extend(words[ninit..].iter().filter(|(t, _)| *t == Some(pos as u64)).map(|x| x.1));
+    let drew = !mine.is_empty();
+    let rst = Rc::new(RefCell::new((0usize, false)));
+    let nwords = mine.len();
+    let rs = crate::fw::run_case_with_rng(&solo, &crate::fw::VirtualClock, ReplayRng { words: mine, st: rst.clone() });
+    let acted = rc.calls.iter().any(|c| {
+        c.actions.iter().any(|a| {
+            let mut t = vec![];
+            crate::enc::out_action(a, &mut t);
+            t[1] == pos as u64
+        })
+    });
+    if let Some(v) = mon_c10(&rc, &rs, pos) {
+        return (Some(format!("(probabilistic machine, fed the random words it drew next to its neighbours) {} machines={:?} position={} calls={:?}", v, combined.machines.iter().map(|m| m.serialize()).collect::<Vec<_>>(), pos, combined.calls)), drew, acted);
+    }
+    let (used, beyond) = *rst.borrow();
+    if beyond || used != nwords {
+        return (
+            Some(format!(
+                "(probabilistic machine) alone, machine {} consumed {} random words{} where it consumed {} next to its neighbours: machines={:?} calls={:?}",
+                pos,
+                used,
+                if beyond { " and asked for more" } else { "" },
+                nwords,
+                combined.machines.iter().map(|m| m.serialize()).collect::<Vec<_>>(),
+                combined.calls
+            )),
+            drew,
+            acted,
+        );
+    }
+    (None, drew, acted)
+}
+
 pub fn mon_c10(comb: &FwRun, solo: &FwRun, pos: usize) -> Option<String> {
     if comb.panic.is_some() || solo.panic.is_some() {
         return Some("panic".to_string());
